@@ -1393,7 +1393,7 @@ def __get_attribute_list_reply():
     srvc[True]	 	= rsvd	= octets_drop(	'reserved',	repeat=1 )
     rsvd[True]		= stts	= status()
     stts[True]			= typed_data( 			context=Object.GA_LST_CTX,
-                                                tag_type=UINT.tag_type,
+                                                tag_type=USINT.tag_type,
                                                 terminal=True )
     stts[None]			= octets_noop(	'nodata',
                                                 terminal=True )
